@@ -23,6 +23,20 @@ extracts the four constants on every run and requires that they describe the
 same id range (structural fact "hello id coding"), and runs real meshes with up
 to 256 connections per pair.
 
+Data phase overlapping the setup phase (`Model/MeshData.lean`, `DReach`): a
+party uses its connections as soon as ITS OWN `Connect` has returned, while
+other parties are still accepting.  Per connection and direction the model
+keeps the bytes in the socket from the moment of the dial, the `ReadBuf` of the
+`*Conn` that `acceptConn` reads the hello with (and then stores), and what the
+application sent / received per slot.  `C19_early_data_conserved` /
+`C19_early_data_delivered`: at every time the received sequence of slot (q, k)
+at p is a prefix of what q sent on its slot (p, k), nothing lost, duplicated,
+reordered or cross-wired, and a receive delivers all of it.  An `acceptConn`
+that reads the hello through a reader that is not the stored connection loses
+what arrived together with the hello although the mesh forms completely
+(`C19_hello_reader_drops_early_data`); checks/C19.py forces that schedule on
+the real code and requires that the data arrives.
+
 History: before commit b60eeb5 `acceptConn` decremented `need[k]` and
 broadcast BEFORE it stored the connection; for that ordering (`ReachOld`,
 events `oldDec`/`oldStore`) all three statements are false.  The witnesses
@@ -31,6 +45,7 @@ replays their schedules on the real code and requires that they no longer
 produce the failure.
 -/
 import MpcVerif.Proofs.MeshMeasure
+import MpcVerif.Proofs.MeshData
 
 namespace Mpc
 open Mesh
@@ -291,6 +306,161 @@ def oldBadListRun : List Ev :=
 theorem C19_old_order_error :
     ((run ⟨4, 1⟩ (init ⟨4, 1⟩) oldBadListRun).map fun s => (oldBadListRun.all Ev.old, s.bad)) =
       some (true, true) := by
+  decide +kernel
+
+/-! ### data phase overlapping the setup phase: data sent on a connection at
+any time after the sender's own `Connect` returned arrives on the matching
+connection of the peer -/
+
+/-- **Conservation**, in every state reachable with payload events interleaved
+in any way with the setup events (every schedule, every split of the byte
+stream into socket reads, including the read that fetches the hello): what p
+has received from `Peers[q].Conns[k]`, followed by what sits in the `ReadBuf` of
+that connection, followed by what is still in its socket, is exactly what q has
+sent on ITS `Peers[p].Conns[k]`.  Nothing is lost, duplicated, reordered or
+delivered to another slot. -/
+theorem C19_early_data_conserved (c : Cfg) (hc : c.Ok) (s : DState) (h : DReach c s) (p q k : Nat)
+    (hpq : p ≠ q) :
+    s.inp p q k ++ (s.buf (wire p q k) p ++ s.sock (wire p q k) p) = s.out q p k :=
+  dreach_conserved c hc s h p q k hpq
+
+/-- **early data is delivered**.  For every reachable state of the overlapped
+system and every pair p ≠ q, k < m: (1) the sequence p has received on its k-th
+connection to q is a prefix of what q has sent on its k-th connection to p; (2)
+once nothing is under way the two are equal; (3) q may send as soon as its own
+`Connect` has returned - whatever p is doing, in particular before p has
+accepted the connection; (4) once p's `Connect` has returned a receive on that
+connection is enabled and yields everything q has sent so far, including what
+was sent before p accepted. -/
+theorem C19_early_data_delivered (c : Cfg) (hc : c.Ok) (s : DState) (h : DReach c s) (p q k : Nat)
+    (hp : p < c.n) (hq : q < c.n) (hpq : p ≠ q) (hk : k < c.m) :
+    s.inp p q k <+: s.out q p k ∧
+    (drained s p q k = true → s.inp p q k = s.out q p k) ∧
+    (s.base.phase q = .done → ∀ bs, ∃ s', dstep c s (.send q p k bs) = some s' ∧
+      s'.out q p k = s.out q p k ++ bs) ∧
+    (s.base.phase p = .done → ∃ s',
+      dstep c s (.recv p q k (s.sock (wire p q k) p).length (s.out q p k).length) = some s' ∧
+      s'.inp p q k = s.out q p k ∧ drained s' p q k = true) := by
+  have hI := reach_inv c hc s.base (dreach_base c s h)
+  have hJ := dreach_conserved c hc s h p q k hpq
+  refine ⟨⟨_, hJ⟩, ?_, ?_, ?_⟩
+  · intro hd
+    simp only [drained, Bool.and_eq_true, beq_iff_eq] at hd
+    rw [hd.1, hd.2] at hJ
+    simpa using hJ
+  · intro hqd bs
+    have ht := done_table c hc s.base hI q hq hqd p k hp hpq hk
+    simp [dstep, hqd, ht, updS_apply]
+  · intro hpd
+    have ht := done_table c hc s.base hI p hp hpd q k hq (Ne.symm hpq) hk
+    have hlen : (s.buf (wire p q k) p ++ s.sock (wire p q k) p).length ≤ (s.out q p k).length := by
+      rw [← hJ]; simp
+    simp only [dstep, hpd, if_true, ht, List.take_length, List.drop_length]
+    refine ⟨_, rfl, ?_, ?_⟩
+    · simp only [updS_apply, and_self, if_true]
+      rw [List.take_of_length_le hlen, hJ]
+    · simp only [drained, updC_apply, and_self, if_true, Bool.and_eq_true, beq_iff_eq]
+      exact ⟨trivial, List.drop_of_length_le hlen⟩
+
+theorem dreach_of_run (c : Cfg) (es : List DEv) (hat : ∀ e ∈ es, e.real = true) (s0 s : DState)
+    (h0 : DReach c s0) (hr : drun c s0 es = some s) : DReach c s := by
+  induction es generalizing s0 with
+  | nil => simp [drun] at hr; subst hr; exact h0
+  | cons e es ih =>
+    simp only [drun] at hr
+    cases h1 : dstep c s0 e with
+    | none => simp [h1] at hr
+    | some s1 =>
+      simp only [h1, Option.bind_some] at hr
+      exact ih (fun e' he' => hat e' (by simp [he'])) s1 (.step e h0 (hat e (by simp)) h1) hr
+
+theorem dreachDrop_of_run (c : Cfg) (es : List DEv) (hat : ∀ e ∈ es, e.dropping = true) (s0 s : DState)
+    (h0 : DReachDrop c s0) (hr : drun c s0 es = some s) : DReachDrop c s := by
+  induction es generalizing s0 with
+  | nil => simp [drun] at hr; subst hr; exact h0
+  | cons e es ih =>
+    simp only [drun] at hr
+    cases h1 : dstep c s0 e with
+    | none => simp [h1] at hr
+    | some s1 =>
+      simp only [h1, Option.bind_some] at hr
+      exact ih (fun e' he' => hat e' (by simp [he'])) s1 (.step e h0 (hat e (by simp)) h1) hr
+
+/-- n = 3, m = 1: party 1 has nothing to accept, so its `Connect` returns as
+soon as it has dialled party 2; it sends three bytes at once.  Party 2 has not
+accepted the connection yet: the bytes wait in the socket behind the hello. -/
+def earlySetup : List DEv :=
+  [.ev (.join 2) 0, .ev .lconnect 0, .ev (.join 1) 0, .ev (.hello 1) 0, .ev (.accTake 0 1 0) 0,
+   .ev (.hello 2) 0, .ev (.accStore 0) 0, .ev (.accDec 0) 0, .ev (.accTake 0 2 0) 0, .ev (.accStore 0) 0,
+   .ev (.accDec 0) 0, .ev (.waitDone 0) 0, .ev .info 0, .ev .info 0, .ev (.recvInfo 2) 0,
+   .ev (.recvInfo 1) 0, .ev (.dial 1) 0, .ev (.waitDone 1) 0, .send 1 2 0 [7, 8, 9]]
+
+/-- ... then party 2 accepts (`acc`: the read of the hello takes the three
+bytes along), stores, returns from `Connect` and receives. -/
+def earlyRest (acc : DEv) : List DEv :=
+  [acc, .ev (.accStore 2) 0, .ev (.accDec 2) 0, .ev (.waitDone 2) 0, .recv 2 1 0 10 10]
+
+/-- Non-vacuity of the two theorems above: a reachable state of the overlapped
+system in which party 1 has returned and sent while party 2 has not accepted
+yet (the hypotheses `phase q = done`, `phase p ≠ done` and a non-empty socket
+are satisfiable together) ... -/
+example : ∃ s, DReach ⟨3, 1⟩ s ∧ s.base.phase 1 = .done ∧ s.base.phase 2 = .run 0 [] ∧
+    s.base.conn 2 1 0 = none ∧ s.sock (wire 2 1 0) 2 = [7, 8, 9] ∧ s.inp 2 1 0 = [] := by
+  cases hrun : drun ⟨3, 1⟩ (dinit ⟨3, 1⟩) earlySetup with
+  | none =>
+    have : (drun ⟨3, 1⟩ (dinit ⟨3, 1⟩) earlySetup).isSome = true := by decide +kernel
+    simp [hrun] at this
+  | some s =>
+    have : ((drun ⟨3, 1⟩ (dinit ⟨3, 1⟩) earlySetup).map fun s =>
+        (s.base.phase 1, s.base.phase 2, s.base.conn 2 1 0, s.sock (wire 2 1 0) 2, s.inp 2 1 0)) =
+        some (.done, .run 0 [], none, [7, 8, 9], []) := by decide +kernel
+    simp only [hrun, Option.map_some, Option.some.injEq, Prod.mk.injEq] at this
+    exact ⟨s, dreach_of_run _ earlySetup (by decide) _ s .init hrun, this⟩
+
+/-- ... and with the code as it is the schedule ends with the mesh complete
+and the three bytes received on party 2's connection 0 to party 1. -/
+example : (earlySetup ++ earlyRest (.ev (.accTake 2 1 0) 3)).all DEv.real = true ∧
+    ((drun ⟨3, 1⟩ (dinit ⟨3, 1⟩) (earlySetup ++ earlyRest (.ev (.accTake 2 1 0) 3))).map fun s =>
+      (s.base.bad, allDone ⟨3, 1⟩ s.base, s.out 1 2 0, s.inp 2 1 0, drained s 2 1 0)) =
+      some (false, true, [7, 8, 9], [7, 8, 9], true) := by
+  decide +kernel
+
+/-- The same schedule with every accept reading the hello through a temporary reader. -/
+def dropRun : List DEv :=
+  (earlySetup ++ earlyRest (.ev (.accTake 2 1 0) 3)).map fun
+    | .ev (.accTake j i k) r => .evDrop (.accTake j i k) r
+    | e => e
+
+/-- **Negation witness** for a variant of `acceptConn` that reads the hello
+through a reader that is not the stored connection (a temporary `Conn` /
+buffered reader on the raw `net.Conn`): a reachable state in which the mesh has
+formed completely - no error, every `Connect` returned, every table complete,
+nothing in flight, the need counters at 0 - party 1 has sent `[7, 8, 9]` on its
+connection 0 to party 2, party 2 has received NOTHING on its connection 0 to
+party 1 and nothing is under way any more: the data is lost for good
+(`C19_early_data_delivered` (2) is false there). -/
+theorem C19_hello_reader_drops_early_data :
+    ∃ s, DReachDrop ⟨3, 1⟩ s ∧ s.base.bad = false ∧ allDone ⟨3, 1⟩ s.base = true ∧
+      quiet ⟨3, 1⟩ s.base = true ∧ (List.range 3).all (tableComplete ⟨3, 1⟩ s.base) = true ∧
+      s.base.need 2 0 = 0 ∧ s.out 1 2 0 = [7, 8, 9] ∧ s.inp 2 1 0 = [] ∧ drained s 2 1 0 = true := by
+  cases hrun : drun ⟨3, 1⟩ (dinit ⟨3, 1⟩) dropRun with
+  | none =>
+    have : (drun ⟨3, 1⟩ (dinit ⟨3, 1⟩) dropRun).isSome = true := by decide +kernel
+    simp [hrun] at this
+  | some s =>
+    have h1 : ((drun ⟨3, 1⟩ (dinit ⟨3, 1⟩) dropRun).map fun s =>
+        (s.base.bad, allDone ⟨3, 1⟩ s.base, quiet ⟨3, 1⟩ s.base,
+          (List.range 3).all (tableComplete ⟨3, 1⟩ s.base))) = some (false, true, true, true) := by
+      decide +kernel
+    have h2 : ((drun ⟨3, 1⟩ (dinit ⟨3, 1⟩) dropRun).map fun s =>
+        (s.base.need 2 0, s.out 1 2 0, s.inp 2 1 0, drained s 2 1 0)) = some (0, [7, 8, 9], [], true) := by
+      decide +kernel
+    simp only [hrun, Option.map_some, Option.some.injEq, Prod.mk.injEq] at h1 h2
+    obtain ⟨a1, a2, a3, a4⟩ := h1
+    exact ⟨s, dreachDrop_of_run _ dropRun (by decide) _ s .init hrun, a1, a2, a3, a4, h2⟩
+
+/-- The hypothesis of the witness is satisfiable: `dropRun` is a run of the variant. -/
+example : dropRun.all DEv.dropping = true ∧ (drun ⟨3, 1⟩ (dinit ⟨3, 1⟩) dropRun).isSome = true := by
   decide +kernel
 
 end Mpc
